@@ -284,6 +284,14 @@ theorem C20_curry_no_call_lost (fn : CurryFn) (scripts : List (List (List Int)))
   have := count_reach r
   simpa [Curry.init, Curry.pendingCount] using this
 
+/-- lock order respects every goroutine's program order: the Calls goroutine `t` has made so far are a
+    prefix of its script and occur in that order within the lock order -/
+theorem C20_curry_program_order (fn : CurryFn) (scripts : List (List (List Int))) (c : Curry)
+    (r : CReach fn (Curry.init scripts) c) (t : Nat) (s : List (List Int)) (hs : scripts[t]? = some s) :
+    ∃ (made rest : List (List Int)), c.pending[t]? = some rest ∧ s = made ++ rest ∧ made.Sublist c.lockOrder :=
+  progOrder_reach r t s hs
+example : ([[[1], [2]], [[3]]] : List (List (List Int)))[1]? = some [[3]] := rfl
+
 /-- the whole sequential script run by the driver (`cu` cases) prints exactly what the Spec prints -/
 theorem C20_curry_script (fn : CurryFn) (ts : List String) :
     runScript (curryTokImpl fn) (Curry.init []) ts = runScript (curryTokSpec fn) Spec.CurryS.init ts := by
